@@ -102,9 +102,10 @@ ALGO_PATTERNS = ['empty1', 'empty2', 'empty-then-empty', 'mixed', 'normal']
 
 
 def _algo_case(rng, pattern, reg):
-  """9 rows owned by clients A (4 rows), B (3), C (2); two rounds of cohorts."""
+  """9 rows owned by clients A, B, C (3 rows each, so that shuffle_repeat_batch(batch_size=3, num_epochs=1) is
+  exactly one pass in one step); two rounds of cohorts."""
   c = _case(rng, 9, reg)
-  a, b, cc = list(range(0, 4)), list(range(4, 7)), list(range(7, 9))
+  a, b, cc = list(range(0, 3)), list(range(3, 6)), list(range(6, 9))
   if rng.random() < 0.5:
     c['dom'] = [rng.choice([0, 1]) for _ in range(9)]   # a domain without any example
   r1 = {'empty1': [[]], 'empty2': [[], []], 'empty-then-empty': [[]], 'mixed': [[], a, []], 'normal': [a, b]}[pattern]
@@ -254,7 +255,7 @@ def _algo(kind, reg, geo):
   from fedjax.core import optimizers, client_datasets
   from fedjax.algorithms import mime, mime_lite, agnostic_fed_avg
   api = _api(reg)
-  cb = client_datasets.ShuffleRepeatBatchHParams(batch_size=32, num_epochs=1, seed=0)
+  cb = client_datasets.ShuffleRepeatBatchHParams(batch_size=3, num_epochs=1, seed=0)
   pb = client_datasets.PaddedBatchHParams(batch_size=geo[0], num_batch_size_buckets=geo[1])
   if kind in ('mime', 'mime_lite'):
     build = mime.mime if kind == 'mime' else mime_lite.mime_lite
